@@ -141,11 +141,7 @@ func runFilter(c Case) pbt.Verdict {
 	for i, r := range c.Rounds {
 		list, addrs, failing := roundInputs(r)
 		chk.begin(failing)
-		arg := addrs.Copy()
-		got := f.Run(arg)
-		if !stringset.Equal(arg, addrs) {
-			return pbt.Fail("Run modified the list it was given\nround %d list=%v now=%v", i, list, arg.ToSlice())
-		}
+		got := f.Run(addrs.Copy())
 		if msg := m.step(i, list, failing, chk.take(), toBool(got)); msg != "" {
 			return pbt.Fail("%s", msg)
 		}
